@@ -47,6 +47,40 @@ func judgeModel(c *MCase, opts canon.Options) mverdict {
 	return judgeModelWith(c, opts, apiRunner)
 }
 
+// importDeclCases: a declaration pattern (with elisions for the parameters and the rest of the body) that also adds an
+// import, on files whose import declarations are laid out in every way (none, one, grouped, one declaration per
+// package, cgo's import "C" only): inserting the import must not disturb which declaration is rewritten.
+func importDeclCases(tag string, guard bool) []*MCase {
+	ch := &model.Change{Kind: "decl", Meta: []model.MetaVar{{Name: "n", Kind: "identifier"}},
+		Imports: []model.Import{{Tag: "+", Path: "new/q"}},
+		Lines:   model.L(" func n(_ DOTS_1) {", "-\tprep()", "+\tq.Prep()", " DOTS_2", " }")}
+	if guard {
+		ch.Imports = append([]model.Import{{Tag: " ", Path: "fmt"}}, ch.Imports...)
+	}
+	layouts := map[string]string{
+		"none":     "",
+		"single":   "import \"fmt\"\n\n",
+		"grouped":  "import (\n\t\"fmt\"\n\t\"os\"\n)\n\n",
+		"separate": "import \"fmt\"\n\nimport \"os\"\n\nimport named \"x/y\"\n\n",
+		"cgo-only": "/*\n#include <stdio.h>\n*/\nimport \"C\"\n\n",
+		"cgo+one":  "import \"C\"\n\nimport \"fmt\"\n\n",
+	}
+	bodies := []string{
+		"func before() {}\n\nfunc load(path string, strict bool) {\n\tprep()\n\tfmt.Println(path)\n}\n\nfunc after() {\n\tother()\n}\n",
+		"func load() {\n\tprep()\n}\n\nfunc second(a int) {\n\tprep()\n\tuse(a)\n}\n\nvar tail = 1\n",
+	}
+	var out []*MCase
+	for _, l := range []string{"none", "single", "grouped", "separate", "cgo-only", "cgo+one"} {
+		if guard && !strings.Contains(layouts[l], "\"fmt\"") {
+			continue
+		}
+		for bi, b := range bodies {
+			out = append(out, &MCase{Change: ch, File: "package p\n\n" + layouts[l] + b, Tag: fmt.Sprintf("%s/%s/%d", tag, l, bi)})
+		}
+	}
+	return out
+}
+
 // judgeModelBoth judges the trace through the library API and — the command line has its own copy of the
 // apply loop (main.go patchRunner) — also through the CLI in its default, in-place mode. every > 1 selects a
 // deterministic 1/every slice of the traces for the CLI run. A CLI-only disagreement is only believed if
